@@ -79,10 +79,9 @@ func pruneDocNulls(doc *partialDoc) *partialDoc {
 func pruneAryNulls(ary *partialArray) *partialArray {
 	newAry := []*lazyNode{}
 
+	// RFC 7396 stores an array value as it is: nulls are only dropped from
+	// objects that are merged, never from what an array contains.
 	for _, v := range *ary {
-		if v != nil {
-			pruneNulls(v)
-		}
 		newAry = append(newAry, v)
 	}
 
